@@ -44,6 +44,9 @@ def fdiv (a b : Rat) : Rat := rnd53 (a / b)
 /-- Go's `int(f)` : truncation toward zero -/
 def ftrunc (q : Rat) : Int := if q < 0 then -((-q).floor) else q.floor
 
+/-- Go's `int(math.Round(f))` : round half away from zero -/
+def fround (q : Rat) : Int := if q < 0 then -((-q + 1/2).floor) else (q + 1/2).floor
+
 /-- decode an IEEE-754 binary64 bit pattern; `none` for NaN and infinities -/
 def ofBits (b : Nat) : Option Rat :=
   let sign : Nat := b / 2 ^ 63 % 2
